@@ -269,6 +269,30 @@ def sig_hash(obj):
     return hashlib.sha1(json.dumps(obj, sort_keys=True).encode()).hexdigest()[:12]
 
 
+def evidence_problems(level, cov):
+    """The per-level requirements of EVIDENCE.schema.json, checked before the file is written."""
+    bad = []
+    ints = lambda k, lo: isinstance(cov.get(k), int) and cov[k] >= lo
+    if not isinstance(cov.get("samples"), list) or not cov["samples"]:
+        bad.append("coverage.samples is empty")
+    own = {"model_checking": ["states", "transitions", "traces_validated_against_impl"],
+           "translation_validation": ["programs", "disagreements_checked"]}.get(level)
+    if own and all(k in cov for k in own):
+        for k in own:
+            if not ints(k, 0 if k in ("traces_validated_against_impl", "disagreements_checked") else 1):
+                bad.append("coverage.%s missing or too small" % k)
+    else:
+        if not ints("evaluations", 1):
+            bad.append("coverage.evaluations missing")
+        if not ints("distinct_nontrivial", 2):
+            bad.append("coverage.distinct_nontrivial missing or < 2")
+        if level in ("exploration", "fault_enumeration") and not isinstance(cov.get("rule"), str):
+            bad.append("coverage.rule missing")
+    if "checker_cmd" in cov and not isinstance(cov["checker_cmd"], str):
+        bad.append("coverage.checker_cmd is not a string")
+    return bad
+
+
 class Check:
     """Bookkeeping for one run of one property's check."""
 
@@ -321,6 +345,11 @@ class Check:
         cov = self.cov
         cov["known_findings_hit"] = sum(self.known_hit.values())
         cov["model_drift"] = self.drift
+        if isinstance(cov.get("checker_cmd"), (list, tuple)):
+            cov["checker_cmd"] = "; ".join(str(c) for c in cov["checker_cmd"])
+        problems = evidence_problems(self.level, cov)
+        if problems and self.replay_sig is None and not self.violations:
+            raise ToolError("evidence would not validate: " + "; ".join(problems))
         ev = {"property_id": self.pid, "tier": self.tier, "seed": seed(), "level": self.level,
               "coverage": cov, "assumptions": self.assumptions, "wall_s": round(time.time() - self.t0, 2),
               "violations": len(self.violations)}
